@@ -189,6 +189,13 @@ func (e *Engine) resolveType(pkg *types.Package, s string) (types.Type, error) {
 	if s == "ref" {
 		return types.Typ[types.UnsafePointer], nil
 	}
+	if strings.HasPrefix(s, "[]") {
+		el, err := e.resolveType(pkg, s[2:])
+		if err != nil {
+			return nil, err
+		}
+		return types.NewSlice(el), nil
+	}
 	// qualified names of packages not imported by pkg: resolve manually
 	if i := strings.LastIndex(s, "."); i > 0 && !strings.ContainsAny(s, "[]() ") {
 		star := strings.HasPrefix(s, "*")
